@@ -13,6 +13,7 @@ import Driver.HandlerStore
 import Driver.Migrate
 import Driver.Archive
 import Driver.SseClient
+import Driver.Resource
 
 def main (args : List String) : IO UInt32 := do
   let stdin ← IO.getStdin
@@ -31,4 +32,5 @@ def main (args : List String) : IO UInt32 := do
   | ["migrate"] => Drv.loop stdin Drv.Migrate.step Migrate.fresh; return 0
   | ["archive"] => Drv.loop stdin Drv.Archive.step (); return 0
   | ["sseclient"] => Drv.loop stdin Drv.SseClient.step (); return 0
+  | ["resource"] => Drv.loop stdin Drv.Resource.step {}; return 0
   | _ => IO.eprintln "usage: wfdriver <model>"; return 2
